@@ -8,6 +8,7 @@
 (*   fb       per subject the fallback tag <alg>-<hex>: "none" or the list *)
 (*            of descriptors its index holds, each [a, d]: artifact a with *)
 (*            descriptor defect d ("ok", wrong "size", "at" = artifactType,*)
+(*            "noat" = artifactType left out,                              *)
 (*            "annot" = annotations); a may be missing, or name another    *)
 (*            subject than the tag (stale / mixed indexes),                *)
 (*   resp     subjects that already have a converted (accurate) response,  *)
@@ -23,7 +24,7 @@ EXTENDS Integers, Sequences, FiniteSets, TLC
 Subjects == {"m1", "m2", "nx"}
 Arts == {"a1", "a2", "a7", "a4"}
 ActualSubj == [a1 |-> "m1", a2 |-> "m1", a7 |-> "m2", a4 |-> "nx"]
-Defects == {"ok", "size", "at", "annot"}
+Defects == {"ok", "size", "at", "noat", "annot"}     \* "noat": the artifactType is missing (older clients)
 Own(S) == {a \in Arts : ActualSubj[a] = S}
 E(a, d) == [a |-> a, d |-> d]
 
